@@ -124,6 +124,7 @@ type Interp struct {
 	Precise     bool // byte-precise library models (interp_precise.go)
 	preciseKind map[int]string
 	curState  *State
+	GeneralPosition bool // two different free inputs are never equal (a stated restriction of the rule that sets it)
 	Intervals bool // propagate float intervals through arithmetic (interp_intervals.go)
 	NonNeg   map[int]bool // atoms known to be >= 0 (answers of distance oracles)
 	Positive map[int]bool // atoms taken to be > 0 (a stated restriction of the rule that sets them)
@@ -1341,6 +1342,9 @@ func (it *Interp) binop(s *State, fr *Frame, x *ssa.BinOp, a, b AV) AV {
 					return boolOf(true)
 				}
 			}
+		}
+		if it.GeneralPosition && (x.Op == token.EQL || x.Op == token.NEQ) && av.Input && bv.Input && av.Sym > 0 && bv.Sym > 0 && av.Sym != bv.Sym && av.Term == nil && bv.Term == nil {
+			return boolOf(x.Op == token.NEQ)
 		}
 		if it.Terms && isCmp && !av.Known && !bv.Known && av.Finite && bv.Finite {
 			// the same finite unknown on both sides
